@@ -372,7 +372,7 @@ def api_prop(pid, quick_modes, thorough_modes):
 def c12(tier, seed):
     run = Run("C12", tier, seed)
     thorough = tier == "thorough"
-    api_stage(run, "C12", [GA + ("total", 0), GA + ("hosts", 0)] + ([GA + ("hist", 3)] if thorough else []))
+    api_stage(run, "C12", [GA + ("total", 0), GA + ("hosts", 0), GA + ("deep", 0)] + ([GA + ("hist", 3)] if thorough else []))
     # parser work (eat calls): bracket nests and all short token strings
     front_stage(run, "C12", [("Gen_Front", "Gen_FrontNests.cfg", "nests", 14 if thorough else 11), GF + ("toks", 4 if thorough else 3)])
     run.bounds = dict(api="one-step histories over 16 sources x hosts; 17 unusual host values through Eval / Compile+call / Debug",
@@ -384,8 +384,20 @@ def c12(tier, seed):
 
 PROPS["C12"] = c12
 REPLAY["C12"] = ("api", "Trace_Api", API_REL["C12"])
-api_prop("C07", [GA + ("pairs", 0)], [GA + ("pairs", 1), GA + ("hist", 3)])
-api_prop("C13", [GA + ("hist", 3), GA + ("total", 0)], [GA + ("hist", 4), GA + ("total", 0), GA + ("pairs", 1)])
+def c07(tier, seed):
+    run = Run("C07", tier, seed)
+    thorough = tier == "thorough"
+    api_stage(run, "C07", [GA + ("pairs", 1 if thorough else 0)] + ([GA + ("hist", 3)] if thorough else []))
+    # host data of ONE Go type whose yae type depends on the value (nil-ness, interface contents):
+    # compiled against one sample, invoked with another -- directly, and after the callable has been used
+    conv_stage(run, "C07", rel={"pairaccept", "paircompile", "pairwarm", "panic_pair"})
+    run.bounds = dict(pairs="18 compile-time x 42 run-time environment objects x %d sources; struct pairs of one Go type" % (6 if thorough else 2))
+    return finish(run, "model_checking", API_RULE, assumptions=["TLC's evaluation of the TLA+ operators is trusted"])
+
+
+PROPS["C07"] = c07
+REPLAY["C07"] = ("api", "Trace_Api", API_REL["C07"])
+api_prop("C13", [GA + ("hist", 3)], [GA + ("hist", 4), GA + ("total", 0), GA + ("pairs", 1)])
 
 
 # ---------------------------------------------------------------------------- host-data conversion (C15, C16 host part)
